@@ -27,6 +27,10 @@ def seeded_table():
             else:
                 verdicts.append(f"{pid}: exit {r['exit']}")
         need = (m.get("needs_to_manifest") or "").replace("|", "/").strip("-* ")[:170]
+        if m.get("superseded_by"):
+            verdicts = [f"superseded by fix {m['superseded_by']} (no longer breaks the property; see meta.json)"]
+        elif m.get("rebased_onto"):
+            verdicts.append(f"(patch re-expressed on {m['rebased_onto']})")
         rows.append(f"| {m['id']} | {m['property']} | {need} | {'yes' if m.get('confirmed') else 'NO'} | {'; '.join(verdicts) or 'not run'} |")
     return "\n".join(rows)
 
@@ -52,8 +56,10 @@ def main():
     p = V / "DESIGN.md"
     s = p.read_text()
     if "<!-- BEGIN:counts -->" in s:
-        s = re.sub(r"<!-- BEGIN:counts -->.*?<!-- END:counts -->", "<!-- BEGIN:counts -->\n" + counts_table() + "\n<!-- END:counts -->", s, flags=re.S)
-    s = re.sub(r"<!-- BEGIN:seeded -->.*?<!-- END:seeded -->", "<!-- BEGIN:seeded -->\n" + seeded_table() + "\n<!-- END:seeded -->", s, flags=re.S)
+        ct = "<!-- BEGIN:counts -->\n" + counts_table() + "\n<!-- END:counts -->"
+        s = re.sub(r"<!-- BEGIN:counts -->.*?<!-- END:counts -->", lambda m: ct, s, flags=re.S)
+    st = "<!-- BEGIN:seeded -->\n" + seeded_table() + "\n<!-- END:seeded -->"
+    s = re.sub(r"<!-- BEGIN:seeded -->.*?<!-- END:seeded -->", lambda m: st, s, flags=re.S)
     p.write_text(s)
 
 
